@@ -37,12 +37,12 @@ FILL = -77
 
 QUICK_FUNCS = [
     ("sum", "float64"), ("nanprod", "float64"), ("count", "float64"), ("nanmean", "float64"),
-    ("var", "float64"), ("max", "float64"), ("nanmax", "float64"), ("nanmin", "float64"),
+    ("var", "float64"), ("max", "float64"), ("nanmax", "float64"),
     ("nanfirst", "float64"), ("nanlast", "int64"), ("argmax", "float64"), ("nanargmin", "float64"),
     ("any", "bool"), ("first", "float64"),
 ]  # fmt: skip
 THOROUGH_FUNCS = QUICK_FUNCS + [
-    ("all", "bool"), ("nansum", "int64"), ("median", "float64"),
+    ("nanmin", "float64"), ("all", "bool"), ("nansum", "int64"), ("median", "float64"),
     ("nansum", "float64"), ("prod", "float64"), ("mean", "float64"), ("nanvar", "float64"),
     ("std", "float64"), ("nanstd", "float64"), ("min", "float64"), ("argmin", "float64"),
     ("nanargmax", "float64"), ("last", "float64"), ("nanfirst", "int64"), ("max", "int64"),
@@ -54,7 +54,7 @@ LABELS = (0.0, 1.0, 2.0, float("nan"))
 
 def bounds(tier, seed):
     if tier == "quick":
-        return dict(n_complete=3, n_stratum=4, strata=32, stratum=seed % 32, funcs=len(QUICK_FUNCS))
+        return dict(n_complete=3, n_stratum=4, strata=64, stratum=seed % 64, funcs=len(QUICK_FUNCS))
     return dict(n_complete=4, n_stratum=5, strata=8, stratum=seed % 8, funcs=len(THOROUGH_FUNCS))
 
 
@@ -64,11 +64,15 @@ def shards(tier, seed):
     out = []
     for func, dtype in funcs:
         for egroup in ("numpy", "flox", "numbagg"):
+            if tier == "quick" and egroup != "numpy" and func not in ("sum", "nanmax", "var", "nanfirst", "nanmean", "any"):
+                continue  # the other engines only differ in the per-block kernels and the grouped combine
             for n in range(1, b["n_complete"] + 1):
                 nparts = 4 if n == b["n_complete"] else 1
                 for part in range(nparts):
                     out.append(dict(func=func, dtype=dtype, engine=egroup, n=n, part=part, nparts=nparts, full=True, tier=tier))
             # one complete stratum of the next length
+            if tier == "quick" and egroup != "numpy":
+                continue
             out.append(dict(func=func, dtype=dtype, engine=egroup, n=b["n_stratum"], part=b["stratum"],
                             nparts=b["strata"], full=False, tier=tier))
     # deep two-label leg: many small blocks, so that cohorts span >= 4 blocks (merging, block subsetting, deeper trees)
